@@ -1,3 +1,5 @@
+import sys
+sys.setrecursionlimit(20000)
 """C03 — Encoder output is well-formed, deterministic, shortest-form CBOR."""
 import struct
 from verifkit.runner import Stream
@@ -227,6 +229,16 @@ def balanced_ops(rng, tier):
         add_tree_seq([("tag", W.min_width(g), g, rng.choice(small))])
         add_tree_seq([("array", 0, [("uint", W.min_width(g), g), ("nint", W.min_width(g), g)])])
     for t in W.small_trees(rng, 100 if q else 1000):
+        add_tree_seq([t])
+    # many indefinite items open at once on ONE encoder (whatever the encoder might count per begin_* must not run out)
+    for d in (100, 254, 255, 256, 257, 300):
+        t = ("uint", 0, 7)
+        for i in range(d):
+            t = ("arrayI", [t])
+        add_tree_seq([t])
+        t = ("bytesI", [(0, b"\x01")])
+        for i in range(d):
+            t = ("arrayI", [("uint", 0, 1), t]) if i % 3 == 0 else ("mapI", [("uint", 0, i % 24), t]) if i % 3 == 1 else ("tag", 0, 2, ("arrayI", [t]))
         add_tree_seq([t])
     # random trees: depth <= 6, both definite and indefinite containers, chunked strings; <= 40 calls per sequence
     want_n = 4000 if q else 80000
